@@ -558,6 +558,56 @@ fn capacity() -> (u64, Vec<Violation>) {
             }
         }
     }
+    // the per-master record capacity (8 stored Announces): a burst of 1..20 Announces of the best
+    // master between two BMCA runs, alone and interleaved with a second master, then four more
+    // regular intervals; the best master must be parent after every BMCA run from the second
+    // Announce on, and silence afterwards must still drop it
+    for burst in 1..=20usize {
+        for with_other in [false, true] {
+            evals += 1;
+            let node = NodeSpec::default();
+            let r = with_node::<RecFilter, _>(&node, |_| RecCfg(Default::default(), false), |nd| {
+                let mut a = Peer::gm(1, 1);
+                let mut b = Peer::gm(2, 60);
+                let mut bad: Vec<String> = vec![];
+                for i in 0..burst {
+                    let f = a.announce();
+                    let _ = simcore::scen::general(nd, 0, &f);
+                    if with_other && i % 2 == 0 {
+                        let f = b.announce();
+                        let _ = simcore::scen::general(nd, 0, &f);
+                    }
+                }
+                let is_parent = |nd: &mut Node<'_, RecFilter>, who: &Peer| nd.inst.parent_ds().parent_port_identity.clock_identity.0 == who.pid.clock && matches!(simcore::scen::port_state(nd, 0), PS::Slave);
+                let _ = nd.bmca();
+                if burst >= 2 && !is_parent(nd, &a) {
+                    bad.push(format!("after a burst of {burst} Announces and one BMCA run the best master is not the parent"));
+                }
+                for k in 0..4 {
+                    let f = a.announce();
+                    let _ = simcore::scen::general(nd, 0, &f);
+                    let _ = nd.bmca();
+                    if !is_parent(nd, &a) {
+                        bad.push(format!("regular interval {k} after the burst: the best master is not the parent"));
+                    }
+                }
+                for _ in 0..6 {
+                    let _ = nd.bmca();
+                }
+                if is_parent(nd, &a) {
+                    bad.push("six silent intervals after the burst: the master is still the parent".into());
+                }
+                bad
+            });
+            for m in r {
+                out.push(Violation {
+                    signature: format!("burst:{}", if m.contains("silent") { "silent-master-still-parent" } else { "sustained-best-master-not-parent" }),
+                    message: format!("{m} [burst {burst}, second master interleaved: {with_other}]"),
+                    replay: json!({"kind": "capacity", "burst": burst, "with_other": with_other}),
+                });
+            }
+        }
+    }
     (evals, out)
 }
 
